@@ -107,6 +107,8 @@ type c08Stack struct {
 	// (inside the storage transaction's Commit, inside a plain Get that missed the cache) let the scheduler
 	// run other clients *inside* the cache layer's Commit and Get.
 	Hooks *c08Hooks
+	// CacheSize is set for every case before Open (cache stacks pass it to physical.NewCache).
+	CacheSize int
 	// Ground, set by Open for every case, reads the whole store with every cache emptied first.
 	Ground func(ctx context.Context) (map[string]string, []string, error)
 }
@@ -524,6 +526,9 @@ type c08Case struct {
 	ParkPre  bool `json:"park_commit_pre,omitempty"`
 	ParkPost bool `json:"park_commit_post,omitempty"`
 	ParkGet  bool `json:"park_get,omitempty"`
+	// CacheSize (cache stacks): 0 = default; 128 gives every transaction a private LRU of 128/64 = 2 entries,
+	// fewer than the keys a transaction touches.
+	CacheSize int `json:"cache_size,omitempty"`
 }
 
 func c08GenOp(rng *kit.Rand, vals *int, client int, write, page bool) c08Action {
@@ -573,6 +578,9 @@ func c08GenCase(rng *kit.Rand, st *c08Stack, id, mode string) *c08Case {
 		// and inside a plain Get that missed the cache (after the storage read, before the cache is filled)
 		cs.Shape = "commitpark"
 		cs.ParkPre, cs.ParkPost, cs.ParkGet = rng.Chance(3, 4), rng.Chance(3, 4), rng.Chance(1, 2)
+	}
+	if st.HasCache && rng.Chance(1, 2) {
+		cs.CacheSize = 2 * physical.TransactionCacheFactor
 	}
 	nTxn := 2 + rng.Intn(3)
 	nPlain := 1 + rng.Intn(st.MaxPlain)
@@ -946,7 +954,10 @@ func c08Execute(cs *c08Case, be c08Backend, st *c08Stack, rng *kit.Rand, free bo
 					close(e.park.resume)
 				}
 			case <-tm.C:
-				if run.Aborted == "" && run.Hung == "" {
+				if free {
+					// nothing is ever held back in a free-running case (no parks, gate open)
+					run.Hung = fmt.Sprintf("at least one call of the free-running clients (%v after they were started)", c08StepTimeout)
+				} else if run.Aborted == "" && run.Hung == "" {
 					run.Aborted = "clients did not finish"
 				}
 				break wait
@@ -955,7 +966,7 @@ func c08Execute(cs *c08Case, be c08Backend, st *c08Stack, rng *kit.Rand, free bo
 		if run.Hung != "" {
 			// hung client goroutines may still append to their records: leave those alone
 			for _, c := range clients {
-				if c.state == "" {
+				if c.state == "" && !free {
 					run.Recs = append(run.Recs, c.recs...)
 				}
 			}
@@ -2015,6 +2026,7 @@ func c08RunCases(t *testing.T, r *kit.Result, st *c08Stack, mode string, n int, 
 		}
 		rng := kit.NewRand(seed, c08Stream(st.Name, mode)+uint64(i))
 		cs := c08GenCase(rng, st, id, mode)
+		st.CacheSize = cs.CacheSize
 		be, cleanup := st.Open(t)
 		func() {
 			defer cleanup()
@@ -2040,20 +2052,42 @@ func c08RunCases(t *testing.T, r *kit.Result, st *c08Stack, mode string, n int, 
 				return
 			}
 			t0 := c08LastStamp(run)
-			// quiescence: every client has returned from its last call
-			scan, probs, err := c08ScanStore(ctx, be)
+			// quiescence: every client has returned from its last call. The scan runs under a watchdog: a Get or
+			// List that never returns now (nothing else is running) is a hung operation, not a broken check.
+			var scan map[string]string
+			var probs []string
+			var err error
+			if run.Aborted == "" && !c08Within(c08HangWait, func() { scan, probs, err = c08ScanStore(ctx, be) }) {
+				run.Hung = "the scan of the store after all clients had finished (plain List/Get through the layer under test)"
+				r.Eval(1)
+				c08Analyse(t, r, st, run, mode == "free")
+				return
+			}
+			if run.Aborted != "" {
+				scan, probs, err = map[string]string{}, nil, nil
+			}
 			if err != nil {
 				r.Inconc("%s: final scan failed with an error: %v", id, err)
 				return
 			}
 			run.Scan, run.ScanProblems, run.ScanAt = scan, probs, [2]int64{t0 + 1, t0 + 2}
 			if st.Ground != nil && run.Aborted == "" {
-				g, gp, err := st.Ground(ctx)
+				var g map[string]string
+				var gp []string
+				if !c08Within(c08HangWait, func() { g, gp, err = st.Ground(ctx) }) {
+					run.Hung = "the scan of the store after all clients had finished and the cache had been purged"
+					r.Eval(1)
+					c08Analyse(t, r, st, run, mode == "free")
+					return
+				}
 				if err != nil || len(gp) > 0 {
 					r.Inconc("%s: cannot read the store below the cache: %v %v", id, gp, err)
 					return
 				}
 				run.Ground, run.HasGround = g, true
+			}
+			if cs.CacheSize > 0 {
+				r.Count("cases_with_2_entry_private_txn_cache", 1)
 			}
 			if run.Parked > 0 {
 				r.Count("cases_with_calls_parked_under_cache", 1)
@@ -2111,6 +2145,7 @@ func c08RunStack(t *testing.T, name string, st *c08Stack, sched, free int, extra
 		r.Require("reader_of_written_key_inside_commit_before_storage_commit", n/50)
 		r.Require("reader_of_written_key_inside_commit_after_storage_commit", n/50)
 		r.Require("quiescent_cache_vs_store_comparisons", n)
+		r.Require("cases_with_2_entry_private_txn_cache", n/4)
 	}
 	if extra != nil {
 		extra(r, sched, free)
@@ -2153,4 +2188,17 @@ func c08Shown(v string, found bool) string {
 		return "<absent>"
 	}
 	return v
+}
+
+// c08Within runs f and reports whether it returned within d. On false f's goroutine is abandoned and
+// the variables it assigns must not be read.
+func c08Within(d time.Duration, f func()) bool {
+	done := make(chan struct{})
+	go func() { defer close(done); f() }()
+	select {
+	case <-done:
+		return true
+	case <-time.After(d):
+		return false
+	}
 }
